@@ -148,7 +148,7 @@ static void canon(char *b, size_t cap) {
         for (int k = 0; k < NCB; k++) AP("%d.%d,", m->armed[k].act, m->armed[k].arg);
         AP("s"); for (int q = 0; q < NPAT; q++) if (m->sub[q].present) AP("%d%d%d%d,", q, m->sub[q].prio, m->sub[q].oneshot, m->sub[q].upver);
         AP("m"); for (int k = 0; k < m->nmb; k++) { msg_t *g = &MSG[m->mb[k].msg]; AP("%d.%d.%d.%d.%d.%x,", g->sender + 1, g->topic, g->sys, g->autofree, m->mb[k].optional, m->mb[k].pats); }
-        AP("b%zu.%d.%d", m->batch_size, m->batch_tmo, m->batch_fired);
+        AP("b%zu.%d.%d.%d", m->batch_size, m->batch_tmo, m->batch_fired, m->ever_batched);
         AP("st"); for (int k = 0; k < m->nst; k++) { evrec_t *r = &EV[m->stash[k]]; AP("%d.%d,", r->kind, r->kind == 0 ? MSG[r->msg].sender + 1 : r->key); }
         AP("h"); for (int k = 0; k < m->nhs; k++) AP("%d", m->hs[k]);
         AP("src"); for (int k = 0; k < MAXSRC; k++) if (m->src[k].present) AP("%d.%d.%d.%d,", m->src[k].kind, m->src[k].key, m->src[k].flags, m->src[k].fired);
@@ -181,7 +181,7 @@ static void check_quiescent_obligations(void) {
     if (!CX.exists || !CX.looping) return;
     for (int s = 0; s < NM; s++) { mod_t *m = &MD[s]; if (!m->present || m->st != S_RUNNING) continue;
         int haslow = 0; for (int k = 0; k < NPAT; k++) if (m->sub[k].present && m->sub[k].prio == PR_LOW) haslow = 1;
-        if (m->batch_size == 0 && m->batch_tmo == 0 && !haslow) {
+        if (m->batch_size == 0 && m->batch_tmo == 0 && !haslow && !m->ever_batched) {
             if (ON(R_PS)) for (int k = 0; k < m->nmb; k++) if (!m->mb[k].optional && m->mb[k].kind == 0 && MSG[m->mb[k].msg].topic != T_PILL)
                 vfail("PS.owed", MSG[m->mb[k].msg].sys ? "PS.owed|quiescent-sys" : "PS.owed|quiescent", "dispatch no longer delivers anything but message #%d (topic %s) owed to RUNNING module %s was never handed over",
                       m->mb[k].msg, MSG[m->mb[k].msg].topic < NTOPIC ? TOPIC[MSG[m->mb[k].msg].topic] : "-", m->name);
